@@ -1,6 +1,9 @@
 //! Provides functionality for handling sessions and tokens.
 
+#[cfg(not(all(humphrey_verif, feature = "humphrey")))]
 use std::time::UNIX_EPOCH;
+#[cfg(all(humphrey_verif, feature = "humphrey"))]
+use humphrey::verif::time::UNIX_EPOCH;
 
 use rand_core::{OsRng, RngCore};
 
